@@ -451,21 +451,8 @@ def rule_len(rep):
     decoder agreement of every storage layout (rule C01.enc of the fixed-string property: set_size / adjust_size folded for every
     length 0..N, size() must give that length back) is therefore a necessary condition here and is decided again under this id."""
     from . import c01
-    from .. import fstring as fs_
-    from ..report import Renamed
-    r2 = Renamed(rep, {"C01.enc": "C14.len"})
-    rep.rule("C14.len", "the length std::hash passes on is the string's length: for every storage layout and every length 0..N, size() decodes what "
-                        "set_size/adjust_size encoded (the packed layout's last byte read as an unsigned count, the strlen layout's terminator in place)")
-    insts = c01.INSTS["quick"]
-    d = cj.dump(fs_.driver(insts), "xtl::")
-    rep.cmd(d.cmd)
-    strs = fs_.gather(d, insts)
-    caps = {i[0]: i[2] for i in insts}
-    if set(strs) != set(caps):
-        rep.inconclusive("C14.len", "storage layouts", "instantiations", detail="found %s, expected %s" % (sorted(strs), sorted(caps)))
-        return
-    for tag in sorted(strs):
-        c01.rule_enc(r2, strs[tag], caps[tag])
+    c01.rule_enc_as(rep, "C14.len", "the length std::hash passes on is the string's length: for every storage layout and every length 0..N, size() decodes what "
+                                    "set_size/adjust_size encoded (the packed layout's last element read as an unsigned count, the strlen layout's terminator in place)")
 
 
 def rule_addr(rep, d, fns):
